@@ -669,7 +669,8 @@ pub fn cmd_sched_conf(args: &Args) -> J {
     let mut samples = Vec::new();
     let started = std::time::Instant::now();
     let time_limit = args.num("time-limit", 100_000);
-    for case in 0..cases {
+    let first_case = args.num("first-case", 0);
+    for case in first_case..cases {
         if started.elapsed().as_secs() > time_limit || stalls.len() > 5 {
             break;
         }
@@ -731,6 +732,9 @@ pub fn cmd_sched_conf(args: &Args) -> J {
     let mut skipped = 0usize;
     let mut complete = 0usize;
     let mut model_steps = 0usize;
+    if let Ok(path) = std::env::var("GH_DUMP_SESSION") {
+        let _ = std::fs::write(path, &session);
+    }
     match lean::run_gmodel(&gmodel, &session) {
         Err(e) => divergences.push(J::obj(vec![("detail", J::s(e))])),
         Ok(results) => {
@@ -779,7 +783,7 @@ pub fn cmd_sched_conf(args: &Args) -> J {
         ("cases", J::n(metas.len())),
         ("conforming", J::n(ok)),
         ("complete_runs", J::n(complete)),
-        ("skipped_beneficiary_read", J::n(skipped)),
+        ("skipped_outside_model (beneficiary read, backing read racing a commit)", J::n(skipped)),
         ("model_steps_replayed", J::n(model_steps)),
         ("distinct_traces", J::n(distinct.len())),
         ("n_divergences", J::n(n_div)),
